@@ -147,6 +147,24 @@ def body(case):
             check(bool(np.all(np.isfinite(g))), 'value:non-finite', lambda: dict(ev=xi.tolist(), got=g.tolist()))
             check(bool(ok.all()), 'value-differs-from-cox-de-boor',
                   lambda: dict(x=float(xi[~ok][0]), got=float(g[~ok][0]), want=float(r1[~ok][0]), nord=nord, knots=t.tolist(), n_eval=len(ev)))
+    # the object keeps no state between evaluations: a second point set with the same length and the same extremes but a
+    # different interior must give its own values
+    if len(ev) >= 3:
+        ev2 = np.sort(ev.copy())
+        inner2 = lo + (hi - lo) * (0.5 + 0.5 * np.sin(np.arange(1, len(ev2) - 1) * 1.7 + cs[0]))
+        ev2[1:-1] = np.sort(inner2)
+        ev2[0], ev2[-1] = np.sort(ev)[0], np.sort(ev)[-1]
+        y2, m2 = call(b.value, ev2.copy())
+        with judge('second-evaluation'):
+            y2 = np.asarray(y2, dtype='f8')
+            in2 = (ev2 >= lo) & (ev2 <= hi)
+            if in2.any():
+                a1 = bslib.spline_value(t, coeff, nord, ev2[in2], 'right')
+                a2 = bslib.spline_value(t, coeff, nord, ev2[in2], 'left')
+                tolv = 1e-9 * (1 + np.abs(coeff).max())
+                ok2 = (np.abs(y2[in2] - a1) <= tolv) | (np.abs(y2[in2] - a2) <= tolv)
+                check(bool(ok2.all()), 'second-evaluation-on-same-object-wrong', lambda: dict(x=float(ev2[in2][~ok2][0]), got=float(y2[in2][~ok2][0]), want=float(a1[~ok2][0])))
+            check(bool(np.array_equal(np.asarray(m2).astype(bool), in2)), 'second-evaluation-mask-wrong')
     xs = np.sort(ev[(ev >= lo) & (ev <= hi)])
     if len(xs):
         idx = call(b.intrv, xs)
